@@ -291,8 +291,12 @@ def run_literal_text(chk: Check, prog: Program, rid: str = "C05.R7") -> None:
         label = f"coerce_to_number on a literal text: {p.cond or 'single path'}"
         key = f"{rid}:coerce_to_number"
         if p.outcome == "raise":
-            # int("1.5") / float("1.2.3") raise ValueError themselves: a malformed number, inside the contract
-            chk.verdict(p.exc.exc == "ValueError", rid, key, label, f"raises {p.exc}", where=f.where)
+            # a malformed number text ("1.2.3") is rejected with ValueError; a well-formed literal must convert
+            malformed = it.atoms.get("malformed:text:literal")
+            ok_raise = p.exc.exc == "ValueError" and malformed is True
+            chk.verdict(ok_raise, rid, key if ok_raise else key + ":rejects-literal", label,
+                        "" if ok_raise else f"a well-formed literal is rejected: {p.exc} (e.g. '5.0' when a decimal text reaches int())",
+                        where=f.where)
             continue
         t = it.to_term(p.value) if p.outcome == "return" else None
         if t is None:
